@@ -329,9 +329,47 @@ pub fn run(args: &[String]) -> i32 {
             let _ = h.join();
         }
         verif::install_sync_hook(None);
-        let n_events = events.len();
+        let mut n_events = events.len();
         for e in events {
             trace.put(&e);
+        }
+        // further phases: the environment puts another creation in force (PidAlloc!SetCreation) while nobody allocates,
+        // then the threads allocate again; the counters read back after the call are logged with the event
+        for ph in sc["phases"].as_array().cloned().unwrap_or_default() {
+            let c = ph["creation"].as_u64().unwrap_or(1) as u32;
+            alloc.set_creation(c);
+            trace.put(&json!({"ev": "set_creation", "creation": c, "id": alloc.next_id_test_only().load(Ordering::SeqCst),
+                              "serial": (alloc.next_serial_test_only().load(Ordering::SeqCst).wrapping_add(serial_shift)) & 0xFFFF_FFFF}));
+            let k = ph["allocs"].as_u64().unwrap_or(1);
+            let sched = Arc::new(Sched { st: Mutex::new(State::default()), cv: Condvar::new(), serial_shift, ctr_shift });
+            let s2 = sched.clone();
+            verif::install_sync_hook(Some(Arc::new(move |label, a, b| s2.arrive(label, a, b))));
+            let mut handles = Vec::new();
+            for t in 1..=n {
+                let sched = sched.clone();
+                let alloc = alloc.clone();
+                handles.push(std::thread::spawn(move || {
+                    TID.with(|c| c.set(t));
+                    sched.arrive("start", 0, 0);
+                    for _ in 0..k {
+                        sched.arrive("call", 0, 0);
+                        match alloc.allocate() {
+                            Ok(p) => sched.arrive("return", ((p.id as u64) << 32) | p.serial as u64, p.creation as u64),
+                            Err(_) => sched.arrive("return", 0, 0),
+                        }
+                    }
+                    sched.finish();
+                }));
+            }
+            let (events, _) = drive(&sched, n, &[], rng.as_mut());
+            for h in handles {
+                let _ = h.join();
+            }
+            verif::install_sync_hook(None);
+            n_events += events.len();
+            for e in events {
+                trace.put(&e);
+            }
         }
         summary.put(&json!({"scenario": si, "events": n_events, "infeasible_steps": infeasible, "schedule_len": schedule.len()}));
     }
